@@ -139,7 +139,10 @@ type fileGen struct {
 	complex   map[string]bool // has a non-scalar field (flattened)
 	hasEmbed  map[string]bool
 	hasCustom map[string]bool
-	simple    bool // the message being generated holds only singular scalar-like fields
+	// pairs remembers (field name, message type) of message-typed fields, so that with MultiPath
+	// several messages hold the same nested type under the same field name
+	pairs  [][2]string
+	simple bool // the message being generated holds only singular scalar-like fields
 }
 
 // File draws a proto file in D.
@@ -415,7 +418,23 @@ func (g *fileGen) field(m *ir.Message, names *nameSet, embedded map[string]bool,
 		}
 	}
 	if !fl.Embed {
-		fl.Name = names.fresh(t, "fname")
+		reused := false
+		if o.MultiPath && fl.Kind == ir.KMessage && rapid.Bool().Draw(t, "reusepair") {
+			for _, p := range g.pairs {
+				if p[1] == fl.Type && names.okField(p[0]) {
+					fl.Name = p[0]
+					names.addField(p[0])
+					reused = true
+					break
+				}
+			}
+		}
+		if !reused {
+			fl.Name = names.fresh(t, "fname")
+			if fl.Kind == ir.KMessage {
+				g.pairs = append(g.pairs, [2]string{fl.Name, fl.Type})
+			}
+		}
 	}
 	if target != nil {
 		if d := g.depth[fl.Type] + 1; d > g.depth[m.Name] {
@@ -474,7 +493,10 @@ func (g *fileGen) finishField(fl *ir.Field, names *nameSet) *ir.Field {
 	t, o := g.t, g.o
 	// json tag
 	if !fl.Embed {
-		switch rapid.IntRange(0, 9).Draw(t, "jsontag") {
+		switch rapid.IntRange(0, 10).Draw(t, "jsontag") {
+		case 10:
+			// camelCase tags are what protoc-gen-gogo users usually write
+			fl.JSONTag = strp("jt" + GoName(fl.Name) + "Camel,omitempty")
 		case 0:
 			fl.JSONTag = strp("jt_" + Snake(fl.Name) + "_x")
 		case 1:
